@@ -296,21 +296,25 @@ func (r *MetricsResult) AggregateResults(parallelism int, aggregation structs.Ag
 func ExtractGroupByFieldsFromSeriesId(seriesId string, groupByFields []string) ([]string, []string) {
 	var groupKeyValuePairs []string
 	var values []string
+
+	// The seriesId is "metricName{key1:value1,key2:value2,...". A field must match a
+	// whole label name: "host" must not pick up the value of "vhost".
+	labels := seriesId
+	if idx := strings.Index(seriesId, "{"); idx != -1 {
+		labels = seriesId[idx+1:]
+	}
+	keyValuePairs := strings.Split(labels, ",")
+
 	for _, field := range groupByFields {
-		start := strings.Index(seriesId, field+":")
-		if start == -1 {
-			continue
+		for _, keyValuePair := range keyValuePairs {
+			key, value, found := strings.Cut(keyValuePair, ":")
+			if !found || key != field {
+				continue
+			}
+			values = append(values, value)
+			groupKeyValuePairs = append(groupKeyValuePairs, fmt.Sprintf("%s:%s", field, value))
+			break
 		}
-		start += len(field) + 1 // +1 to skip the ':'
-		end := strings.Index(seriesId[start:], ",")
-		if end == -1 {
-			end = len(seriesId)
-		} else {
-			end += start
-		}
-		keyValuePair := fmt.Sprintf("%s:%s", field, seriesId[start:end])
-		values = append(values, seriesId[start:end])
-		groupKeyValuePairs = append(groupKeyValuePairs, keyValuePair)
 	}
 	return groupKeyValuePairs, values
 }
